@@ -61,7 +61,7 @@ def mk_input(name, rng=None):
         ts[0]["args"] = [-0.5, 0.0, 1.0]
     if classes[1] == "Triangle":
         ts[1]["args"] = [0.0, 1.0, 1.5]
-    return {"name": name, "enabled": True, "terms": ts}
+    return {"name": name, "enabled": True, "terms": ts, "clear_terms": False}
 
 
 def mk_output(name, kind, rng=None):
@@ -181,6 +181,10 @@ def random_engine(rng, thorough):
     for i in desc["inputs"]:
         if rng.random() < 0.15:
             i["enabled"] = False
+        if rng.random() < 0.04:
+            # terms removed AFTER the rules were loaded: is_ready deliberately does not look at input variables (outside wf_terms)
+            i["clear_terms"] = True
+            desc["wf"] = False
     nblocks = rng.choice([0, 1, 1, 2, 2, 3]) if rng.random() < 0.3 else rng.choice([1, 2])
     for bi in range(nblocks):
         rules = []
@@ -262,6 +266,8 @@ def build_engine(fl, desc):
     # what may change after the rules were loaded
     for v, d in zip(eng.input_variables, desc["inputs"]):
         v.enabled = d["enabled"]
+        if d.get("clear_terms"):
+            v.terms = []
     for v, d in zip(eng.output_variables, desc["outputs"]):
         v.enabled = d["enabled"]
         if d["clear_terms"]:
@@ -545,8 +551,8 @@ def run(ctx, build, verdict, ev):
 
     rng = ctx.rng
     thorough = ctx.tier == "thorough"
-    n_variants = ctx.n(1, 6)
-    n_random = ctx.n(500, 8000)
+    n_variants = ctx.n(1, 8)
+    n_random = ctx.n(500, 20000)
     n_rows = ctx.n(3, 6)
 
     engines = []  # (class label, desc)
